@@ -4,6 +4,7 @@ go 1.26.8
 
 require (
 	github.com/anishathalye/porcupine v1.3.0
+	github.com/gogo/protobuf v1.3.2
 	github.com/zeebo/errs v1.2.2
 	storj.io/drpc v0.0.0
 )
